@@ -171,6 +171,12 @@ func runOnce(p *symgo.Program, cfg Config, opt RunOpts) (o Outcome) {
 	st := smt.NewStore()
 	st.AbstractMul = opt.Abstract
 	sol, err := smt.NewSolver(opt.Solver, st, opt.TimeoutMs)
+	if f := os.Getenv("BMV_SMTLOG"); f != "" && err == nil {
+		// debugging aid: everything sent to the solver of the (single) filtered configuration
+		if w, e := os.Create(f); e == nil {
+			sol.Log = w
+		}
+	}
 	if err != nil {
 		o.Err = "solver: " + err.Error()
 		return
